@@ -72,12 +72,17 @@ type lsState struct {
 	ints   map[types.Object]int64
 	breaks int
 	sinks  []string
+	advs   int  // cursor advanced by the length of the decoration
+	inner  int  // loops over the decoration text that record line starts inside it
 	done   bool // returned
 	cont   bool // continue in the decoration loop
+	ret    *int64
+	// classification helpers: return value wanted
+	retWanted, retSet bool
 }
 
 func (s *lsState) clone() *lsState {
-	n := &lsState{fresh: s.fresh, bools: map[types.Object]bool{}, ints: map[types.Object]int64{}, breaks: s.breaks, done: s.done, cont: s.cont}
+	n := &lsState{fresh: s.fresh, bools: map[types.Object]bool{}, ints: map[types.Object]int64{}, breaks: s.breaks, done: s.done, cont: s.cont, advs: s.advs, inner: s.inner}
 	for k, v := range s.bools {
 		n.bools[k] = v
 	}
@@ -150,6 +155,28 @@ func (v *lsEval) evalInt(s *lsState, x ast.Expr) (int64, bool) {
 		// conversion int(x) / dst.SpaceType(x)
 		if tv, ok := v.info.Types[t.Fun]; ok && tv.IsType() && len(t.Args) == 1 {
 			return v.evalInt(s, t.Args[0])
+		}
+		// a same-package classification of the decoration: f(d) returning constants
+		if len(t.Args) == 1 && v.isD(t.Args[0]) {
+			if fn := calleeFunc(v.info, t); fn != nil && fn.Pkg() != nil && fn.Pkg().Path() == load.PkgDecorator {
+				for _, fd := range load.AllFuncDecls(v.e.Prog.Pkg(load.PkgDecorator)) {
+					if v.info.Defs[fd.Name] != types.Object(fn) || fd.Body == nil || fd.Type.Params == nil || len(fd.Type.Params.List) != 1 || len(fd.Type.Params.List[0].Names) != 1 {
+						continue
+					}
+					saved := v.env.dObj
+					v.env.dObj = v.info.Defs[fd.Type.Params.List[0].Names[0]]
+					sub := &lsState{fresh: s.fresh, bools: map[types.Object]bool{}, ints: map[types.Object]int64{}}
+					var r int64
+					sub.ret = &r
+					sub.retWanted = true
+					v.stmts(sub, fd.Body.List)
+					v.env.dObj = saved
+					if sub.done && sub.retSet {
+						return r, true
+					}
+					return 0, false
+				}
+			}
 		}
 	}
 	return 0, false
@@ -490,6 +517,11 @@ func (v *lsEval) stmt(s *lsState, st ast.Stmt) {
 				switch x.Tok {
 				case token.ADD_ASSIGN, token.ASSIGN:
 					s.fresh = false // the cursor moves forward (monotonicity is R-CURSOR's business)
+					if x.Tok == token.ADD_ASSIGN && v.env.dObj != nil {
+						if v.c.ExprStr(r) == "token.Pos(len("+v.env.dObj.Name()+"))" {
+							s.advs++
+						}
+					}
 				default:
 					v.fail("cursor operator %s", x.Tok)
 					return
@@ -576,6 +608,18 @@ func (v *lsEval) stmt(s *lsState, st ast.Stmt) {
 			return
 		}
 		if v.effectFreeCall(call) {
+			if fn := calleeFunc(v.info, call); fn != nil {
+				for _, fd := range load.AllFuncDecls(v.e.Prog.Pkg(load.PkgDecorator)) {
+					if v.info.Defs[fd.Name] == types.Object(fn) && fd.Body != nil {
+						ast.Inspect(fd.Body, func(m ast.Node) bool {
+							if loopBody(m) != nil && v.e.isTextLoop(v.info, m) {
+								s.inner++
+							}
+							return true
+						})
+					}
+				}
+			}
 			return
 		}
 		v.fail("call %s", v.c.ExprStr(call))
@@ -663,6 +707,9 @@ func (v *lsEval) stmt(s *lsState, st ast.Stmt) {
 		}
 	case *ast.ForStmt:
 		if !v.touches(x.Body, s) && (x.Post == nil || !v.touches(x.Post, s)) {
+			if v.e.isTextLoop(v.info, x) {
+				s.inner++
+			}
 			return // a loop over the text of a literal/comment: its line entries are not layout breaks
 		}
 		if x.Init != nil {
@@ -694,10 +741,19 @@ func (v *lsEval) stmt(s *lsState, st ast.Stmt) {
 		}
 	case *ast.RangeStmt:
 		if !v.touches(x.Body, s) {
+			if v.e.isTextLoop(v.info, x) {
+				s.inner++
+			}
 			return // loop over the text
 		}
 		v.fail("range loop over %s changes the line state", v.c.ExprStr(x.X))
 	case *ast.ReturnStmt:
+		if s.retWanted && len(x.Results) == 1 {
+			if n, ok := v.evalInt(s, x.Results[0]); ok {
+				*s.ret = n
+				s.retSet = true
+			}
+		}
 		s.done = true
 	case *ast.BranchStmt:
 		if x.Tok == token.CONTINUE {
@@ -788,7 +844,13 @@ type lsRef struct {
 	fresh, first bool
 }
 
+var lineStateDone = map[*Env]bool{}
+
 func (e *Env) lineStateApplyDecorations() {
+	if lineStateDone[e] {
+		return
+	}
+	lineStateDone[e] = true
 	pkg := e.Prog.Pkg(load.PkgDecorator)
 	c := e.Sib.Ctx[load.PkgDecorator]
 	info := pkg.TypesInfo
@@ -891,7 +953,7 @@ func (e *Env) lineStateApplyDecorations() {
 							steps++
 							env.class = cls
 							nx := cur.code.clone()
-							nx.breaks, nx.sinks, nx.cont = 0, nil, false
+							nx.breaks, nx.sinks, nx.cont, nx.advs, nx.inner = 0, nil, false, 0, 0
 							ev.stmts(nx, loop.Body.List)
 							if ev.undec != "" {
 								e.Run.Undecided("R-SPACE", key, pos, "in the loop: "+ev.undec)
@@ -925,6 +987,29 @@ func (e *Env) lineStateApplyDecorations() {
 							if gotSink != wantSink {
 								e.Run.Violation("R-SPACE", key, pos, fmt.Sprintf("%s; decorations %s: the last one goes to sink %q, the reference says %q (a comment goes to the node's Comment field only on the first line of an End decoration list of a node that has one, else to the file's comment list; exactly one sink)", envName, trace(child), gotSink, wantSink))
 								return
+							}
+							wantAdv := 0
+							if cls == clsLine || cls == clsInline || cls == clsMulti {
+								wantAdv = 1
+							}
+							if nx.advs != wantAdv {
+								e.Run.Violation("R-SPACE", key, pos, fmt.Sprintf("%s; decorations %s: the cursor advances by the length of the last one %d times, the reference %d (once for every comment, never for anything else): positions after it are off by its length", envName, trace(child), nx.advs, wantAdv))
+								return
+							}
+							if cls == clsMulti && nx.inner == 0 {
+								e.Run.Violation("R-SPACE", key, pos, fmt.Sprintf("%s; decorations %s: the line starts inside the multi-line comment are not recorded on this path (no loop over its text): the line table falls behind the text and what follows is printed on the comment's line", envName, trace(child)))
+								return
+							}
+							// drop the locals of the loop body (re-declared every iteration)
+							for o := range nx.bools {
+								if loop.Body.Pos() <= o.Pos() && o.Pos() <= loop.Body.End() {
+									delete(nx.bools, o)
+								}
+							}
+							for o := range nx.ints {
+								if loop.Body.Pos() <= o.Pos() && o.Pos() <= loop.Body.End() {
+									delete(nx.ints, o)
+								}
 							}
 							k := nx.key() + fmt.Sprint(ref)
 							if !seen[k] {
